@@ -101,7 +101,7 @@ void map_case(unsigned lg, uint32_t h, uint64_t seed, bool fullBijection, Stats&
 } // namespace
 
 void run_case(Tape& t, Stats& st) {
-	unsigned lg = 5 + unsigned(t.below(6));
+	unsigned lg = 5 + unsigned(t.below(6)); if (t.below(10) == 0) lg = 11 + unsigned(t.below(5));   // one case in ten: wider than any game map
 	uint32_t h = t.flag() ? t.pick<uint32_t>({1, 2, 3, 31, 32, 33, 64, 255, 256}) : 1 + uint32_t(t.below(256));
 	if (!g_thorough && (uint64_t(h) << lg) > 40000) h = uint32_t(40000 >> lg) ? uint32_t(40000 >> lg) : 1;
 	uint64_t seed = t.u64();
@@ -123,6 +123,13 @@ void run_sweep(Stats& st) {
 			if (!sw("grid", lg, h)) continue;
 			map_case(lg, h, lg * 1000 + h, true, st, nullptr);
 		}
+	}
+	// widths beyond the game's own sizes: the statement covers every power of two of at least 32 (block numbers of 6..11 bits)
+	for (unsigned lg = 11; lg <= 16; ++lg) for (uint32_t h : {1u, 2u, 3u}) {
+		if ((uint64_t(h) << lg) > (g_thorough ? 400000u : 70000u)) continue;
+		if ((k++ % parts) != part) continue;
+		if (!sw("grid_wide", lg, h)) continue;
+		map_case(lg, h, lg * 1000 + h, lg <= 12, st, nullptr);
 	}
 	st.exhaustive = true;
 }
